@@ -17,5 +17,5 @@ for m in missing:
 sys.exit(1 if missing else 0)
 PY
 rc=$?
-rm -f $out
+rm -f $out /repo/rm_info.json
 exit $rc
